@@ -28,3 +28,18 @@ fn ms_export_mockall<D: DepA>(deps: &D) {}
 pub mod ms_mod_false {
     pub fn mf<D: super::DepA>(deps: &D) {}
 }
+// the exporting spellings with a mock API: mockable exactly when the unimock feature supplies the default
+// (their dependency is exported as well, so that the exported mock can un-mock into it outside of tests)
+#[entrait_export(pub DepX, mock_api = DepXMock)]
+fn dep_x<D>(deps: &D) {}
+#[entrait_export(MsExportApi, mock_api = MsExportApiMock)]
+fn ms_export_api<D: DepX>(deps: &D) {}
+#[entrait(MsExportOptApi, export, mock_api = MsExportOptApiMock)]
+fn ms_export_opt_api<D: DepX>(deps: &D) {}
+#[entrait_export(pub MsExportModApi, mock_api = MsExportModApiMock)]
+pub mod ms_export_mod_api {
+    pub fn ema<D: super::DepX>(deps: &D) {}
+    pub fn emb<D: super::DepX>(deps: &D, a: u8) -> u8 {
+        a
+    }
+}
